@@ -24,6 +24,7 @@ import os
 import sys
 
 import common
+import siblings
 from common import Check, main_wrapper
 
 KNOWN_KEY = "npu_find_block_configs-scaled-ignores-scale_f32-none-int16"
@@ -369,6 +370,25 @@ def main():
 
     pool = mp.get_context("fork").Pool(min(8, os.cpu_count() or 2))
 
+    # ---- history: every stream is run as FAMILIES (base case, then cases that differ from it in exactly one argument), each
+    # family inside one worker process and in this order; the Lean model is history-free, so state that leaks from one call
+    # of the real functions into the next (a memo table whose key forgets an argument) shows as model != real on the sibling
+    def with_siblings(name, cases, alts, p, k=1):
+        fams = []
+        for c in cases:
+            sibs = siblings.derive(rng, c, alts, k) if rng.random() < p else []
+            for pos, s_ in sibs:
+                ck.count("sibling:%s:%s" % (name, pos))
+                if isinstance(s_, dict):
+                    s_["history_field"] = pos
+            fams.append([c] + [s_ for _, s_ in sibs])
+        return fams
+
+    def flat(fams):
+        return [c for f in fams for c in f]
+
+    co = siblings.choice_other
+
     # -------- A: _try_block_config -----------------------------------------------------------------
     core_cases = []
     gran = {}
@@ -377,7 +397,7 @@ def main():
         gran[ai] = (sorted(set(a.ifm_bank_granules.values()) | set(a.ifm_ew_bank_granules.values())),
                     sorted(set(a.accumulator_granules.values())))
     R = bool(ck.replay_arg)      # replay mode: only the recorded input is run
-    n_core = 0 if R else (400000 if T else 12000)
+    n_core = 0 if R else (240000 if T else 7500)      # bases; 70 % bring one sibling
     for _ in range(n_core):
         ai = rng.randrange(nacc)
         ew = rng.choice([0, 0, 1, 2])
@@ -401,12 +421,17 @@ def main():
             else:
                 ofm = (0, ofm[1], ofm[2])
         core_cases.append((ai, ew, ofm, ifm, bits, ig, ab, ag, lut))
+    core_fams = with_siblings("_try_block_config", core_cases, {
+        0: co(0, range(nacc)), 1: co(1, [0, 1, 2]), 2: siblings.bump_elem(2), 3: siblings.bump_elem(3), 4: co(4, [8, 16, 32]),
+        5: lambda r, b: r.choice([g_ for g_ in gran[b[0]][0] if g_ != b[5]]), 6: co(6, [16, 32, 40]),
+        7: lambda r, b: r.choice([g_ for g_ in gran[b[0]][1] if g_ != b[7]]), 8: co(8, [0, 2])}, 0.7)
+    core_cases = flat(core_fams)
     core_req = [req_core(c) for c in core_cases]
-    core_real = pmap(pool, real_core, core_cases, 512)
+    core_real = flat(siblings.run_families(pool, real_core, core_fams, 256))
 
     # -------- B: try_block_config ------------------------------------------------------------------
     try_cases = []
-    n_try = 0 if R else (600000 if T else 20000)
+    n_try = 0 if R else (360000 if T else 12000)      # bases; 70 % bring one sibling
     bts_try = [BT["ConvolutionMxN"]] * 4 + [BT["ConvolutionDepthWise"]] * 2 + [BT["Pooling"]] * 2 + [BT["ElementWise"]] * 3 + \
         [BT["ReduceSum"], BT["VectorProduct"], BT["Default"]]
     for _ in range(n_try):
@@ -437,12 +462,19 @@ def main():
         lut = rng.choice([0, 0, 2, 2, rng.choice([1, 3, 4, 30])]) if rng.random() < 0.1 else rng.choice([0, 2])
         rs = rng.choice([0, 0, 1, 2])
         try_cases.append((ai, bt, blk, ofm, ifm, ifm2, scalar, bits, rng.random() < 0.4, k, lut, rng.random() < 0.7, rs))
+    try_alts = {
+        0: co(0, range(nacc)), 1: co(1, sorted(set(bts_try))), 2: siblings.bump_elem(2, steps=(8, -8, 16, -16, 4, -4)),
+        3: siblings.bump_elem(3), 4: siblings.bump_elem(4), 5: lambda r, b: None if b[5] else b[4], 6: siblings.toggle(6),
+        7: co(7, [8, 16, 32]), 8: siblings.toggle(8), 9: siblings.bump_elem(9, steps=(1, -1, 2)), 10: co(10, [0, 2]),
+        11: siblings.toggle(11), 12: co(12, [0, 1, 2])}
+    try_fams = with_siblings("try_block_config", try_cases, try_alts, 0.7)
+    try_cases = flat(try_fams)
     try_req = [req_try(c) for c in try_cases]
-    try_real = pmap(pool, real_try, try_cases, 256)
+    try_real = flat(siblings.run_families(pool, real_try, try_fams, 128))
 
     # -------- C: find_block_config -----------------------------------------------------------------
     find_cases = []
-    n_find = 0 if R else (120000 if T else 5000)
+    n_find = 0 if R else (75000 if T else 3200)      # bases; 60 % bring one sibling
     bts_find = [BT["ConvolutionMxN"]] * 4 + [BT["ConvolutionDepthWise"]] * 2 + [BT["Pooling"]] * 2 + [BT["ElementWise"]] * 3 + \
         [BT["ReduceSum"], BT["VectorProduct"]]
     # dense part: all accelerators x op kinds x bits x lut x upscaling on a few small shapes
@@ -495,12 +527,18 @@ def main():
             k = (rng.randint(4, 8), rng.randint(4, 8), rng.randint(1, 3), rng.randint(1, 3), 2, 2)
             ifm, ifm2, scalar = (ofm[0], rand_dim(60), rand_dim(60), rng.choice([16, 32, 64])), None, False
         find_cases.append((ai, bt, ofm, ifm, ifm2, scalar, bits, k, rng.choice([0, 2]), rng.random() < 0.7, rs))
+    find_alts = {
+        0: co(0, range(nacc)), 1: co(1, sorted(set(bts_find))), 2: siblings.bump_elem(2, only=(1, 2, 3)),
+        3: siblings.bump_elem(3, only=(1, 2, 3)), 4: lambda r, b: None if b[4] else b[3], 5: siblings.toggle(5),
+        6: co(6, [8, 16, 32]), 7: siblings.bump_elem(7, steps=(1, -1, 2)), 8: co(8, [0, 2]), 9: siblings.toggle(9), 10: co(10, [0, 1, 2])}
+    find_fams = with_siblings("find_block_config", find_cases, find_alts, 0.6)
+    find_cases = flat(find_fams)
     find_req = [req_find(c) for c in find_cases]
-    find_real = pmap(pool, real_find, find_cases, 32)
+    find_real = flat(siblings.run_families(pool, real_find, find_fams, 16))
 
     # -------- D/E: API operations -------------------------------------------------------------------
     op_cases = []
-    n_ops = 0 if R else (24000 if T else 2000)
+    n_ops = 0 if R else (15000 if T else 1700)      # bases; 60 % bring one sibling
 
     def mk_op(ai, kind, dtype, lut, upscale, quants, ofm, k=None, ifm_d=None, ew_mode=None, pk_first=None):
         w, h, d = ofm
@@ -589,6 +627,15 @@ def main():
         kind = rng.choice(["conv2d"] * 4 + ["depthwise"] * 2 + ["pooling"] * 2 + ["reduce_sum"] + ["elementwise"] * 4)
         dtype = rand_dtype(kind)
         ofm = (rand_dim(), rand_dim(), 1 if kind == "reduce_sum" else rand_depth())
+        if rng.random() < 0.16:
+            # one-row / one-column feature maps with a long other axis: the Conv1D accumulator rule looks at the OFM *height*,
+            # so width and height must not be confused anywhere between the query and the generator
+            long_ = rng.choice([16, 24, 32, 40, 63, 64, 128])
+            ofm = (1, long_, ofm[2]) if rng.random() < 0.5 else (long_, 1, ofm[2])
+            if rng.random() < 0.6 and kind != "reduce_sum":
+                ofm = (ofm[0], ofm[1], rng.choice([64, 96, 128, 130, 256, 276, 390]))
+            if rng.random() < 0.6 and kind in ("conv2d", "depthwise", "pooling"):
+                dtype = "i16"
         if rng.random() < 0.01:     # malformed: an empty axis
             z = rng.randrange(3)
             ofm = tuple(0 if i == z else v for i, v in enumerate(ofm))
@@ -633,9 +680,51 @@ def main():
             if m != r:
                 disagreements.append((name, rq, m, r))
 
-    def run_ops(batch):
-        jobs = [(o, sorted({0, rng.randrange(400), rng.randrange(60), rng.randrange(12)})[:n_full]) for o in batch]
-        api_real = pmap(pool, real_api, jobs, 8)
+    def op_alts():
+        def dtype(r, b):
+            pool_ = ("u8", "i8", "i16", "i32") if b["kind"] in ("elementwise", "reduce_sum") else ("u8", "i8", "i16", "u16")
+            return r.choice([d_ for d_ in pool_ if d_ != b["dtype"]])
+
+        def fm(key):
+            def f(r, b):
+                t = b[key]
+                if t is None:
+                    raise KeyError(key)
+                idx = [3]
+                if b["kind"] != "elementwise":
+                    idx += [0, 1]
+                    if b["kind"] in ("conv2d", "reduce_sum") and not (key == "ofm" and b["kind"] == "reduce_sum"):
+                        idx.append(2)
+                i = r.choice(idx)
+                n = list(t)
+                n[i] = r.choice([q_ for q_ in (0, 1, 2) if q_ != t[3]]) if i == 3 else max(1, t[i] + r.choice([1, -1, 2, 8, 16]))
+                return tuple(n)
+            return f
+
+        def pk(r, b):
+            if b["kind"] != "conv2d":
+                raise KeyError("pk_first")
+            return not b["pk_first"]
+
+        def kern(r, b):
+            if not b["kernel"]:
+                raise KeyError("kernel")
+            return siblings.bump_elem("kernel", steps=(1, -1, 2))(r, b)
+
+        def sub(r, b):
+            groups = [["MAX", "AVERAGE"], ["ABS", "LRELU", "CLZ"], ["ADD", "SUB", "MUL", "MIN", "MAX", "SHR", "SHL"]]
+            if b["kind"] == "reduce_sum" or b["sub"] is None:
+                raise KeyError("sub")
+            g_ = [x for x in groups if b["sub"] in x][0 if b["kind"] == "pooling" else -1]
+            return r.choice([x for x in g_ if x != b["sub"]])
+
+        return {"acc": co("acc", range(nacc)), "dtype": dtype, "lut": siblings.toggle("lut"), "upscale": co("upscale", RS),
+                "act": siblings.toggle("act"), "pk_first": pk, "ifm": fm("ifm"), "ofm": fm("ofm"), "ifm2": fm("ifm2"), "kernel": kern, "sub": sub}
+
+    def run_ops(fams):
+        batch = flat(fams)
+        jfams = [[(o, sorted({0, rng.randrange(400), rng.randrange(60), rng.randrange(12)})[:n_full]) for o in fam] for fam in fams]
+        api_real = flat(siblings.run_families(pool, real_api, jfams, 4))
         api_req = ["apicfg %d %s" % (o["acc"], op_tokens(o)) for o in batch]
         gen_req, gen_real = [], []                      # one per offered config
         reg_req, reg_ref = [], []                       # Spec on emitted registers (D and E)
@@ -692,8 +781,10 @@ def main():
                 reg_fail_all.append(v)
                 if stats["reg_fail"] <= 4:
                     op = batch[oi]
-                    ck.violation("Lean Spec (%s) rejects the SHRAM registers the generator emitted (%s) for offered block config h,w,d=%s"
-                                 % (v, where, cfg), {"operation": op, "accelerator": G["accs"][op["acc"]].value,
+                    hist = "" if not op.get("history_base") else (" - HISTORY: generated in the same process right after an operation that "
+                                                                  "differs only in field '%s'" % op.get("history_field"))
+                    ck.violation("Lean Spec (%s) rejects the SHRAM registers the generator emitted (%s) for offered block config h,w,d=%s%s"
+                                 % (v, where, cfg, hist), {"operation": op, "accelerator": G["accs"][op["acc"]].value,
                                                     "block_config_hwd": cfg, "emitted": s_, "spec_verdict": v, "how": where})
         # offered configurations the generator refuses: the verdict (and its explanation) is Lean's
         for (oi, ci, g), v in zip(verdict_ref, verdict_m):
@@ -751,9 +842,13 @@ def main():
         rp = json.load(open(ck.replay_arg))["replay"]
         if "operation" in rp:
             o = rp["operation"]
-            for f in ("ifm", "ifm2", "ofm", "kernel"):
-                o[f] = tuple(o[f]) if o.get(f) else None
-            run_ops([o])
+            hb = o.get("history_base")
+            for o_ in (o, hb):
+                for f in ("ifm", "ifm2", "ofm", "kernel"):
+                    if o_ is not None:
+                        o_[f] = tuple(o_[f]) if o_.get(f) else None
+            # a sibling is replayed with its history: the base operation first, in the same worker
+            run_ops([[hb, o]] if hb else [[o]])
         elif rp.get("function", "").endswith("try_block_config"):
             c = tuple(tuple(x) if isinstance(x, list) else x for x in rp["arguments"])
             try_cases[:] = [c]
@@ -767,9 +862,16 @@ def main():
         op_cases = []
         core_req, try_req, find_req = [req_core(c) for c in core_cases], [req_try(c) for c in try_cases], [req_find(c) for c in find_cases]
         core_real, try_real, find_real = [real_core(c) for c in core_cases], [real_try(c) for c in try_cases], [real_find(c) for c in find_cases]
-    B = 1500
-    for b0 in range(0, len(op_cases), B):
-        run_ops(op_cases[b0:b0 + B])
+    # families: base operation, then (60 %) one operation that differs from it in exactly one field, same worker, in this order
+    op_fams = with_siblings("operation", op_cases, op_alts(), 0.6) if not ck.replay_arg else []
+    op_fams = [f if not f[0].get("excluded") else f[:1] for f in op_fams]
+    for f in op_fams:
+        for s_ in f[1:]:
+            s_["history_base"] = {k_: v_ for k_, v_ in f[0].items() if k_ != "history_base"}
+    B = 900
+    for b0 in range(0, len(op_fams), B):
+        run_ops(op_fams[b0:b0 + B])
+    op_cases = flat(op_fams)
 
     # -------- F: get_ifm_area_required ----------------------------------------------------------------
     area_cases = []
